@@ -16,7 +16,6 @@ package main
 import (
 	"encoding/json"
 	"fmt"
-	"math/rand"
 	"os"
 	"sort"
 	"sync"
@@ -151,11 +150,7 @@ func run(c *lib.Ctx) error {
 	var progs []string
 	for _, toks := range append(ex, sim...) {
 		for k := 0; k < reps; k++ {
-			var r *rand.Rand
-			if k > 0 || c.Seed != 1 {
-				r = c.Rand
-			}
-			text := syn.Concretise(toks, r)
+			text := syn.Concretise(toks, c.Rand)
 			if progSeen[text] {
 				continue
 			}
